@@ -36,6 +36,49 @@ def mutable(d):
 
 
 @st.composite
+def serpentine_s(draw, space):
+    """(state, action): corridors of a boustrophedon maze (walled rows with one gap at alternating ends), optionally transposed,
+    with or without an outer wall; Exit and Beacon on the first two corridor cells, the agent further along"""
+    rows, L = draw(st.sampled_from([2, 3, 4, 5, 5, 6, 6])), draw(st.sampled_from([3, 4, 5, 6, 7, 8, 9, 10, 11, 7, 9, 11]))
+    path, walls = [], []
+    for r in range(rows):
+        xs = list(range(L)) if r % 2 == 0 else list(range(L - 1, -1, -1))
+        path += [(2 * r, x) for x in xs]
+        if r + 1 < rows:
+            gap = xs[-1]
+            path.append((2 * r + 1, gap))
+            walls += [(2 * r + 1, x) for x in range(L) if x != gap]
+    H, W = 2 * rows - 1, L
+    if draw(st.booleans()):
+        path, walls, H, W = [(x, y) for y, x in path], [(x, y) for y, x in walls], W, H
+    if draw(st.booleans()):
+        path.reverse()
+    frame = draw(st.booleans())
+    o = 1 if frame else 0
+    grid = [['W' if frame else 'F'] * (W + 2 * o) for _ in range(H + 2 * o)]
+    for y in range(H):
+        for x in range(W):
+            grid[y + o][x + o] = 'F'
+    for y, x in walls:
+        grid[y + o][x + o] = 'W'
+    path = [(y + o, x + o) for y, x in path]
+    col = draw(st.sampled_from(space['colors']))
+    first = draw(st.sampled_from([f'E:{col}', f'N:{col}']))
+    second = f'N:{col}' if first.startswith('E') else f'E:{col}'
+    grid[path[0][0]][path[0][1]], grid[path[1][0]][path[1][1]] = first, second
+    k = draw(st.integers(2, len(path) - 1) | st.integers(max(2, len(path) - 4), len(path) - 1))
+    hd = draw(st.sampled_from(HEADINGS))
+    a = draw(st.sampled_from(['MOVE_FORWARD', 'MOVE_BACKWARD', 'MOVE_LEFT', 'MOVE_RIGHT', 'MOVE_FORWARD', 'MOVE_BACKWARD', 'TURN_LEFT', 'ACTUATE']))
+    if draw(st.integers(0, 3)):
+        # most of the time the agent looks along the corridor and walks it (one step towards or away from the head)
+        j = k - 1 if (k + 1 >= len(path) or draw(st.booleans())) else k + 1
+        step = (path[j][0] - path[k][0], path[j][1] - path[k][1])
+        hd = [h for h in HEADINGS if M.FWD[h] == step][0]
+        a = draw(st.sampled_from(['MOVE_FORWARD', 'MOVE_FORWARD', 'MOVE_BACKWARD']))
+    return {'grid': grid, 'agent': [path[k][0], path[k][1], hd, '_']}, a
+
+
+@st.composite
 def triple_s(draw, tier, focus=None):
     """(state, action, next state or dynamics marker) honouring every documented precondition;
     scenario planting makes the function under test fire in a large fraction of cases"""
@@ -87,6 +130,12 @@ def triple_s(draw, tier, focus=None):
                         s['agent'][2] = hd
                         a = draw(st.sampled_from(['MOVE_FORWARD', 'MOVE_FORWARD', 'MOVE_BACKWARD', 'TURN_LEFT']))
                         break
+    maze = draw(st.integers(0, 2 if focus == 'getting_closer_shortest_path' else 23)) == 0
+    if maze:
+        # a serpentine corridor: the longest walks a grid of that size can hold (far longer than height + width); the unique
+        # objects sit at its head, the agent walks somewhere along it (over-sampling the far tail)
+        s, a = draw(serpentine_s(space))
+        mode, chain, plant = 'dynamics', FULLCHAIN, False
     n = None
     if mode == 'arbitrary':
         n = mutable(draw(gen.state_s(space, shape=(h, w), valid=True, unique=UNIQ)))
@@ -110,14 +159,14 @@ def triple_s(draw, tier, focus=None):
                 if p == M.apos(n):
                     continue  # the agent never stands on a blocking cell (stated assumption of the distance rewards)
                 n['grid'][p[0]][p[1]] = f'D:{draw(st.sampled_from(objs.STATUSES))}:{M.color_of(M.cell(n, p))}'
-    if draw(st.integers(0, 39)) in (11, 17, 23, 29):
+    if not maze and draw(st.integers(0, 39)) in (11, 17, 23, 29):
         # the same triple inside a world of more than 1000 cells (interior values: Hypothesis over-samples the ends of a range)
         H, W = draw(st.sampled_from([(36, 36), (16, 100), (100, 16), (300, 16)]))
         oy, ox = draw(st.integers(4, H - 4 - h)), draw(st.integers(4, W - 4 - w))
         s = gen.embed(s, H, W, oy, ox)
         if n is not None:
             n = gen.embed(n, H, W, oy, ox)
-    return {'s': s, 'a': a, 'mode': mode, 'n': n, 'chain': chain, 'seed': draw(st.integers(0, 2**31)), 'space': space}
+    return {'s': s, 'a': a, 'mode': mode, 'n': n, 'chain': chain, 'seed': draw(st.integers(0, 2**31)), 'space': space, 'maze': maze}
 
 
 def next_of(case, ctx):
@@ -219,7 +268,7 @@ def oracle_reward(case, ctx):
     fired = exp != off if spec['name'] != 'living_reward' else True
     zero = any(v == 0 and not isinstance(v, bool) for k, v in spec.items() if k.startswith('reward'))
     ctx.ev.case(case, nt=fired, classes=[f'{spec["name"]}:{"on" if fired else "off"}', 'mode:' + case['mode'], 'via_factory' if via else 'direct'] + (['zero_valued_parameter'] if zero else [])
-                + (['asked_again_after_in_place_edit'] if edited else []) + (['world>1000cells'] if M.shape(s)[0] * M.shape(s)[1] > 1000 else []), key=[s, a, n, spec])
+                + (['asked_again_after_in_place_edit'] if edited else []) + (['world>1000cells'] if M.shape(s)[0] * M.shape(s)[1] > 1000 else []) + (['serpentine_maze'] if case.get('maze') else []), key=[s, a, n, spec])
 
 
 @st.composite
